@@ -22,6 +22,7 @@ def prop(pid, **kw):
 
 prop(
     "C08",
+    memory_safety=True,
     title="The overlap check never admits aliasing layouts",
     groups=[dict(crate="rten-tensor", prefix="c08", jobs=10, timeout_quick=1200, timeout_thorough=3600)],
     functions=[
@@ -53,6 +54,7 @@ prop(
 
 prop(
     "C05",
+    memory_safety=True,
     title="Loading untrusted model bytes is safe, bounded and well-formed",
     groups=[
         dict(crate="rten-model-file", prefix="c05", jobs=4),
@@ -79,6 +81,7 @@ prop(
 
 prop(
     "C06",
+    memory_safety=True,
     title="Safe tensor APIs never access memory out of bounds or alias mutably",
     groups=[dict(crate="rten-tensor", prefix="c06", jobs=12, timeout_quick=1200, timeout_thorough=3600)],
     functions=[
@@ -108,6 +111,7 @@ prop(
 
 prop(
     "C07",
+    memory_safety=True,
     title="Tensor iterators yield exactly the logical elements in order",
     groups=[dict(crate="rten-tensor", prefix="c07", jobs=14, timeout_quick=900, timeout_thorough=7200)],
     functions=[
@@ -136,6 +140,7 @@ prop(
 
 prop(
     "C38",
+    memory_safety=True,
     title="The ONNX protobuf decoder terminates and never panics",
     unwinding_is_violation=True,
     groups=[dict(crate="rten-onnx", prefix="c38", jobs=8, timeout_quick=900, timeout_thorough=7200, replay_watchdog_s=20, mem_gb_thorough=36)],
@@ -194,6 +199,7 @@ prop(
 
 prop(
     "C23",
+    memory_safety=True,
     title="The buffer pool hands out each buffer once with adequate capacity",
     groups=[dict(crate="rten", prefix="c23", jobs=6, timeout_quick=1500, timeout_thorough=7200)],
     functions=[
@@ -240,6 +246,7 @@ prop(
 
 prop(
     "C18",
+    memory_safety=True,
     title="SIMD instruction sets agree and stay within slice bounds",
     groups=[dict(crate="rten-simd", prefix="c18", jobs=6, timeout_quick=1200, timeout_thorough=7200)],
     functions=[
@@ -321,6 +328,7 @@ prop(
 
 prop(
     "C36",
+    memory_safety=True,
     title="Contour tracing and drawing stay on the image",
     groups=[dict(crate="rten-imageproc", prefix="c36", jobs=6, timeout_quick=1200, timeout_thorough=7200)],
     functions=["drawing::clamp_to_bounds", "drawing::BreshamPoints::{new, next}", "drawing::draw_line (width 1)",
@@ -341,8 +349,8 @@ prop(
     title="External tensor data cannot escape the model directory or its file bounds",
     groups=[dict(crate="rten", prefix="c21", jobs=6, timeout_quick=2400, timeout_thorough=14400)],
     functions=["model::external_data::is_allowed_external_data_path", "std::path::Path::{components, extension} (as compiled)"],
-    bounds=("every location string of 0..=6 symbolic bytes (7 thorough; 8 exceeded the memory limit) plus 8 fixed longer locations, one per harness "
-            "(traversal, nesting, absolute, ./, Windows-style, split-file names); unwind 10-24"),
+    bounds=("every location string of 0..=6 symbolic bytes (7 thorough; 8 exceeded the memory limit) plus 15 fixed longer locations, one per harness (5 quick, the rest thorough) "
+            "(traversal, nesting, absolute, ./, Windows-style, split-file names, second extension, empty stem, case); unwind 10-24"),
     outside=("the offset/length checks of MemLoader/MmapLoader/FileLoader: they sit behind a HashMap<String,_> lookup or real "
              "files (hash maps measured out of reach; I/O); locations longer than 8 bytes other than the fixed ones"),
     assumptions=["Unix path semantics (the build target)"],
